@@ -73,6 +73,15 @@ try:
         first = next((l.strip() for l in lines if l.strip() and not l.startswith("VIOLATION")), "")
         checks[f"{pid}:{a.tier}:seed{a.seed}"] = {"exit": r.returncode, "violations": nv, "first_message": first[:300], "wall_s": round(time.time() - t)}
         print(f"check {pid} ({a.tier}): exit={r.returncode} violations={nv} wall={time.time() - t:.0f}s  {first[:200]}")
+        # keep the smallest replay the check produced (it becomes a regression input)
+        rp = os.path.join(tmp, "rp")
+        if nv and os.path.isdir(rp):
+            cands = sorted((os.path.getsize(os.path.join(rp, f)), f) for f in os.listdir(rp) if f.startswith(pid + "-"))
+            if cands:
+                os.makedirs(os.path.join(dest, "replays"), exist_ok=True)
+                shutil.copy(os.path.join(rp, cands[0][1]), os.path.join(dest, "replays", f"{pid}.json"))
+            for f in os.listdir(rp):
+                os.remove(os.path.join(rp, f))
         if r.returncode == 2:
             print(r.stderr[-1500:])
     meta["confirmed"] = dict(meta.get("confirmed", {}), **res)
